@@ -82,8 +82,11 @@ fn scoped_event(cfg: &Cfg, refline: usize, scopes: &[(u8, u8, u8, u8)], out: &mu
 
 fn chain_event(cfg: &Cfg, refline: usize, cuts: &[(u8, u8)], out: &mut Out) {
     let mut runs = vec![];
-    for w in cuts.windows(2) {
-        match drain_scoped(cfg, &[(w[0].0, w[0].1, w[1].0, w[1].1)], 1) {
+    for (wi, w) in cuts.windows(2).enumerate() {
+        // every second worker re-targets an evaluator that was first scoped to the previous worker's share (the last scope() call counts)
+        let this = (w[0].0, w[0].1, w[1].0, w[1].1);
+        let scopes: Vec<(u8, u8, u8, u8)> = if wi % 2 == 1 { vec![(cuts[wi - 1].0, cuts[wi - 1].1, w[0].0, w[0].1), this] } else { vec![this] };
+        match drain_scoped(cfg, &scopes, 1) {
             Some((items, 0)) => runs.push(items_json(&items)),
             _ => runs.push("[[-2,-2]]".to_string()),
         }
